@@ -227,7 +227,13 @@ struct HModel {
         } else if (name == "Resize") {
             t.Resize((SizeT)a[1]);
         } else if (name == "Expect") {
-            t.Expect((SizeT)(1 + overload % 5));
+            // (operations that leave the abstract map unchanged: a capacity hint, and merging the table into itself)
+            Table *self = &t;
+            switch (overload % 4) {
+                case 0: t += *self; break;
+                case 1: t += Memory::Move(*self); break;
+                default: t.Expect((SizeT)(1 + overload % 5));
+            }
         } else if (name == "Compress") {
             t.Compress();
         } else if (name == "Clear") {
